@@ -308,6 +308,40 @@ class Folder:
             return self.call(c[1], [("tuple",) + tuple(c[2])] + list(a[1][1:]))
         if s0 is not None and not all(ord(ch) < 128 for ch in s0[1]) and base in ("str::find", "std::ops::Index::index"):
             raise Unsupported("byte offsets into non-ASCII text")
+        if s0 is not None and len(a) > 1 and base in ("str::trim_start_matches", "str::trim_end_matches", "str::trim_matches"):
+            pcs = pat_chars(a[1]) if not (isinstance(a[1], tuple) and a[1][0] == "closure") else None
+            t = s0[1]
+
+            def hit_front(t_):
+                if pcs is None:
+                    return 1 if t_ and bool(call_closure(a[1], ord(t_[0]))) else 0
+                for pc in pcs:
+                    if pc and t_.startswith(pc):
+                        return len(pc)
+                return 0
+
+            def hit_back(t_):
+                if pcs is None:
+                    return 1 if t_ and bool(call_closure(a[1], ord(t_[-1]))) else 0
+                for pc in pcs:
+                    if pc and t_.endswith(pc):
+                        return len(pc)
+                return 0
+            if base != "str::trim_end_matches":
+                while hit_front(t):
+                    t = t[hit_front(t):]
+            if base != "str::trim_start_matches":
+                while hit_back(t):
+                    t = t[:len(t) - hit_back(t)]
+            return ("str", t)
+        if s0 is not None and base in ("str::trim_start", "str::trim_end", "str::trim"):
+            WS = " \t\n\x0b\x0c\r\x85\xa0\u1680\u2000\u2001\u2002\u2003\u2004\u2005\u2006\u2007\u2008\u2009\u200a\u2028\u2029\u202f\u205f\u3000"
+            t = s0[1]
+            if base != "str::trim_end":
+                t = t.lstrip(WS)
+            if base != "str::trim_start":
+                t = t.rstrip(WS)
+            return ("str", t)
         if s0 is not None and len(a) > 1:
             if base == "str::strip_prefix":
                 for pc in pat_chars(a[1]):
